@@ -99,7 +99,7 @@ pub open spec fn blocks2_ok(b: Seq<u8>, start: int, vals: Seq<Seq<u8>>, n: int) 
 // a buffer that agrees with b below the end of the first n blocks holds the same n blocks
 pub proof fn lemma_blocks32_frame(b: Seq<u8>, b2: Seq<u8>, start: int, vals: Seq<Seq<u8>>, n: int)
     requires blocks32_ok(b, start, vals, n), 0 <= start, 0 <= n, start + 32 * n <= b.len(), start + 32 * n <= b2.len(),
-        forall|i: int| 0 <= i < start + 32 * n ==> #[trigger] b2[i] == b[i],
+        forall|i: int| start <= i < start + 32 * n ==> #[trigger] b2[i] == b[i],
     ensures blocks32_ok(b2, start, vals, n)
 {
     assert forall|k: int| 0 <= k < n implies #[trigger] b2.subrange(start + 32 * k, start + 32 * k + 32) == vals[k] by {
@@ -108,7 +108,7 @@ pub proof fn lemma_blocks32_frame(b: Seq<u8>, b2: Seq<u8>, start: int, vals: Seq
 }
 pub proof fn lemma_blocks2_frame(b: Seq<u8>, b2: Seq<u8>, start: int, vals: Seq<Seq<u8>>, n: int)
     requires blocks2_ok(b, start, vals, n), 0 <= start, 0 <= n, start + 2 * n <= b.len(), start + 2 * n <= b2.len(),
-        forall|i: int| 0 <= i < start + 2 * n ==> #[trigger] b2[i] == b[i],
+        forall|i: int| start <= i < start + 2 * n ==> #[trigger] b2[i] == b[i],
     ensures blocks2_ok(b2, start, vals, n)
 {
     assert forall|k: int| 0 <= k < n implies #[trigger] b2.subrange(start + 2 * k, start + 2 * k + 2) == vals[k] by {
